@@ -53,6 +53,11 @@ RV_MORE = [
     ("print-all", "addi a0, x0, 65\n" + "".join(f"addi a7, x0, {c}\necall\n" for c in (1, 11, 34, 35, 36, 2))),
     ("backward-jal", "addi x1, x0, 2\nl: addi x1, x1, -1\nbeq x1, x0, 8\njal x0, l\naddi x2, x0, 9\n"),
 ]
+# programs too expensive for the deviation space; used by the inspected-vs-uninspected pairs only
+RV_HEAVY = [
+    # more than 10 000 characters of console output (a 3 400-character string printed four times)
+    ("long-output", ".data\ns: .string \"" + "0123456789abcdefghijklmnopqrstuvwxyzABCDEFGHIJKLMNOPQRSTUVWXYZ+-=/" * 50 + "\"\n.text\nla a0, s\naddi a7, x0, 4\naddi x5, x0, 4\nloop: ecall\naddi x5, x5, -1\nbne x5, x0, loop\naddi x6, x0, 1\n"),
+]
 CACHES = {
     "none": (None, None),
     "wb-both": (rv.cache_opts(1, 0, 1, "wb", "lru", 2), rv.cache_opts(0, 1, 2, "wb", "plru", 1)),
@@ -69,6 +74,8 @@ TOY_CORPUS = [
     ("branch-out", "ZRO\nBRZ 0x200\nINC\n"),
     ("empty", ""),
     ("nops", "NOP\nNOP\nINC\nDEC\n"),
+    # words that cannot be written in assembly (operand-less opcodes with address bits set) stored into the code and executed back to back
+    ("noncanonical-words", ".data\na: .word 0x9001\nb: .word 0x9002\nc: .word 0xA003\n.text\nLDA a\nSTO s1\nLDA b\nSTO s2\nLDA c\nSTO s3\ns1: NOP\ns2: NOP\ns3: NOP\nINC\n"),
 ]
 
 
@@ -224,7 +231,7 @@ def shard_fn(shard):
 def fresh_probe(kind, pname, mode, cache, upto, stop):
     """Runs in a pristine interpreter (vf.engine.fresh): the program with every inspection function called after every
     step up to step `upto` (-1: none), stopped after `stop` steps, then observed with all inspection functions."""
-    text = dict(TOY_CORPUS + TOY_RELOADS if kind == "toy" else RV_CORPUS + RV_MORE + RV_RELOADS)[pname]
+    text = dict(TOY_CORPUS + TOY_RELOADS if kind == "toy" else RV_CORPUS + RV_MORE + RV_RELOADS + RV_HEAVY)[pname]
     names = list(insp.functions(make(kind, text, mode, cache)))
     n, obs, _raw = run_to(kind, text, mode, cache, {k: list(names) for k in range(upto + 1)}, stop)
     return {"steps": n, "observations": [[nm, repr(c)] for nm, c in obs]}
@@ -234,10 +241,11 @@ def fresh_items(thorough):
     """An inspection call must not leave anything behind at class or module level either: the inspected run and the
     reference run each get their own interpreter (in one process the reference's own probes would leave the same traces)."""
     out = []
-    todo = [("toy", pname, mode, "none") for pname, _t in TOY_CORPUS[:4] for mode in ("whole", "half")]
+    todo = [("toy", pname, mode, "none") for pname, _t in TOY_CORPUS[:4] + TOY_CORPUS[-1:] for mode in ("whole", "half")]
+    todo += [("riscv", "long-output", rv.SINGLE, "none"), ("riscv", "long-output", rv.FIVE, "none")]
     todo += [("riscv", pname, mode, cache) for pname, mode, cache in (("loop", rv.FIVE, "wb-both"), ("ecalls", rv.SINGLE, "none"), ("hazards", rv.FIVE, "none"), ("loads-stores", rv.SINGLE, "wt-both"))]
     for kind, pname, mode, cache in todo:
-        text = dict(TOY_CORPUS if kind == "toy" else RV_CORPUS)[pname]
+        text = dict(TOY_CORPUS if kind == "toy" else RV_CORPUS + RV_HEAVY)[pname]
         nsteps, _o, _r = run_to(kind, text, mode, cache, {}, None)
         stops = list(range(1, nsteps + 1))
         if not thorough and len(stops) > 10 and not (kind == "toy" and mode == "half"):
